@@ -46,6 +46,12 @@ func (te *taskEnv) execExt(op *Op, rec *OpRec) bool {
 	case "pairs":
 		te.execPairs(op, rec)
 		return true
+	case "keyfn":
+		te.execKeyFn(op, rec)
+		return true
+	case "san":
+		te.execSan(op, rec)
+		return true
 	}
 	return false
 }
